@@ -37,17 +37,23 @@ def impl_pareto(p, q, mp, mq):
     from artap.operators import ParetoDominance
     if "pareto" not in _SHARED:
         _SHARED["pareto"] = ParetoDominance()
-    return _SHARED["pareto"].compare(list(p) + [mp], list(q) + [mq])
+    lp, lq = list(p) + [mp], list(q) + [mq]
+    if lp == lq and type(mp) is type(mq) and len(p) % 2 == 0:
+        lq = lp          # the same list object on both sides
+    return _SHARED["pareto"].compare(lp, lq)
 
 
 def impl_eps(eps, p, q, mp, mq, shared=False):
     from artap.operators import EpsilonDominance
+    lp, lq = list(p) + [mp], list(q) + [mq]
+    if lp == lq and type(mp) is type(mq) and len(p) % 2 == 0:
+        lq = lp          # identical vectors: also as one and the same list object (aliased costs, e.g. after sync())
     if shared:   # comparator instances live across calls with different numbers of objectives
         key = ("eps", tuple(eps))
         if key not in _SHARED:
             _SHARED[key] = EpsilonDominance(list(eps))
-        return _SHARED[key].compare(list(p) + [mp], list(q) + [mq])
-    return EpsilonDominance(eps).compare(list(p) + [mp], list(q) + [mq])
+        return _SHARED[key].compare(lp, lq)
+    return EpsilonDominance(eps).compare(lp, lq)
 
 
 def gen_vec_pair(rng, m, pool):
